@@ -45,3 +45,12 @@ Theorem C17_agree_implies_holds : forall c o, agrees c o = true ->
   (match o with OVar (RErr _ _) ev => ev = false | OFn CCalled ok => ok = true | _ => True end) -> holds c o = true.
 Proof. exact agree_implies_holds. Qed.
 Print Assumptions C17_agree_implies_holds.
+
+(* a collection is spliced in, not nested: no item of a variable's value is itself a collection, whatever was supplied;
+   a collection of plain items comes back exactly as supplied *)
+Theorem C17_variable_value_is_flat : forall input os n items, eval_var input os n = RVal items -> forallb is_item items = true.
+Proof. exact variable_value_is_flat. Qed.
+Print Assumptions C17_variable_value_is_flat.
+Theorem C17_plain_collection_exactly_as_supplied : forall l, forallb is_item l = true -> splice (KColl l) = l.
+Proof. exact splice_shallow. Qed.
+Print Assumptions C17_plain_collection_exactly_as_supplied.
